@@ -120,21 +120,19 @@ class WBS:
         cloned_tasks = {task.id: task.clone() for task in all_tasks.values()}
 
         # Some tasks in WBS can have predecessors or successors outside WBS (i.e. from another project).
-        # This predecessors/successors should not be copied.
-        for t in all_tasks.values():
-            for pr in t.predecessors:
-                if pr.wbs != self:
-                    cloned_tasks.setdefault(pr.id, pr)
-            for sc in t.successors:
-                if sc.wbs != self:
-                    cloned_tasks.setdefault(sc.id, sc)
+        # This predecessors/successors should not be copied: the clone is linked to the same outside task.
+        # Links to members of this WBS that are not part of the copied selection are dropped.
+        def link_target(task: Task):
+            if task.wbs != self:
+                return task
+            return cloned_tasks.get(task.id)
 
         for t in all_tasks.values():
             c = cloned_tasks[t.id]
             c.parent = cloned_tasks.get(all_tasks[t.id].parent.id) if all_tasks[t.id].parent else None
             c.children = [cloned_tasks[ch.id] for ch in all_tasks[t.id].children]
-            c.predecessors = [cloned_tasks[ch.id] for ch in all_tasks[t.id].predecessors if ch.id in cloned_tasks]
-            c.successors = [cloned_tasks[ch.id] for ch in all_tasks[t.id].successors if ch.id in cloned_tasks]
+            c.predecessors = [v for v in [link_target(ch) for ch in all_tasks[t.id].predecessors] if v is not None]
+            c.successors = [v for v in [link_target(ch) for ch in all_tasks[t.id].successors] if v is not None]
 
         return cloned_tasks
 
